@@ -31,3 +31,7 @@ CLAIMS["C27"] = dict(level="exploration",
     technique="exhaustive enumeration of all 65536 suite ids x versions x secret patterns (before and after EnableWeakCiphers) against an independent support table, with bidirectional payload exchange on every supported pair",
     text="Every suite id at TLS 1.0/1.1/1.2 with three secret/random patterns is forged as client and server: ids valid for the version (per a table built from the standard library plus utls's extra code points) must give two non-nil connections that exchange 1/100/16384/20000-byte payloads both ways; unknown ids must give nil.",
     note="Reference support table derived from stdlib crypto/tls; a suite at a version it is not valid for is not judged.")
+CLAIMS["C10"] = dict(level="exploration",
+    technique="exhaustive enumeration of a client x server-configuration grid (deviation-bounded pairs in quick, full product in thorough) with server choices restricted by a small negotiation model to values the on-wire hello offers",
+    text="Every discovered ID, enumerated randomized seeds, custom specs and fingerprinted copies are handshaken against every server configuration (version, pinned group incl. HRR-forcing ones, pinned TLS 1.2 suite, certificate kind, ALPN) that the parsed on-wire hello offers; the handshake must complete on both sides and 1 KiB must echo both ways.",
+    note="Peer is utls's own Server; TLS 1.3 suite selection is not pinned; who aborted is classified from error texts; negotiation model (mc/props/grid.go) trusted.")
